@@ -30,7 +30,10 @@ func genC11(t *rapid.T) interface{} {
 		n := rapid.IntRange(0, 8).Draw(t, "len")
 		b := []byte{}
 		for j := 0; j < n; j++ {
-			b = append(b, rapid.SampledFrom([]string{"\n", "\r", "\r\n", "a", "b", " ", "é", "\n\n", "\r\r\n", "x"}).Draw(t, "piece")...)
+			b = append(b, rapid.SampledFrom([]string{"\n", "\r", "\r\n", "a", "b", " ", "é", "\n\n", "\r\r\n", "x", "\n", "\r\n", "\u2028", "\u2029", "\u0085", "\v", "\f", "\t", "\ufeff", "€", "\xff"}).Draw(t, "piece")...)
+		}
+		if rapid.IntRange(0, 11).Draw(t, "bom") == 3 {
+			b = append([]byte("\xef\xbb\xbf"), b...) // a byte order mark is content like any other
 		}
 		c.Files = append(c.Files, b)
 	}
